@@ -1,8 +1,1443 @@
-//! C17 — see /verif/DESIGN.md §3.
-use vf_core::{Args, Ctx};
+//! C17 — subsetting preserves everything about the glyphs and characters it
+//! keeps (see /verif/DESIGN.md §3 "C17").
+//!
+//! Oracle: differential, original font vs `klippa::subset_font` output, both
+//! observed through skrifa (charmap, unhinted outlines recorded exactly as f32
+//! bit patterns, advance width, left side bearing) at sizes {unscaled, 16,
+//! 113} × locations {default, axis extremes, random normalized coords}.
+//!
+//! The old→new glyph id relation is *not* taken from the plan (its fields are
+//! private): it is recovered from the plan's documented semantics — identity
+//! under RETAIN_GIDS, otherwise the rank of the old id in the retained set,
+//! where retained = {.notdef} ∪ glyphs of retained characters ∪ requested ids
+//! ∪ cmap-14 closure ∪ COLR closure ∪ composite closure. The property only
+//! demands requested glyphs, .notdef and components (`r_min`); the superset
+//! (`r_full`) is cross-checked against the subset's glyph count.
+use font_types::{F2Dot14, GlyphId, NameId, Tag};
+use klippa::{subset_font, Plan, SubsetFlags, DEFAULT_LAYOUT_FEATURES};
+use read_fonts::collections::IntSet;
+use read_fonts::tables::cmap::{Cmap, Cmap4, CmapSubtable, PlatformId};
+use read_fonts::tables::glyf::Glyph;
+use read_fonts::{FontRef, TableProvider};
+use serde_json::{json, Value};
+use skrifa::instance::{LocationRef, Size};
+use skrifa::metrics::GlyphMetrics;
+use skrifa::outline::{DrawSettings, OutlineGlyphCollection, OutlinePen};
+use skrifa::MetadataProvider;
+use std::cell::RefCell;
+use std::collections::{BTreeSet, HashMap};
+use std::rc::Rc;
+use std::sync::Arc;
+use vf_core::{fnv64, Args, Ctx, Digest, PanicPolicy, Rng};
 
-pub const REPLAY: Option<fn(&mut Ctx, &Args, &serde_json::Value, Option<&[u8]>)> = None;
+pub const REPLAY: Option<fn(&mut Ctx, &Args, &Value, Option<&[u8]>)> = Some(replay);
 
-pub fn run(ctx: &mut Ctx, _args: &Args) {
-    ctx.rule = "stub".into();
+// ------------------------------------------------------------------ flags
+
+const F_NO_HINTING: u16 = 0x0001;
+const F_RETAIN_GIDS: u16 = 0x0002;
+const F_DESUBR: u16 = 0x0004;
+const F_NAME_LEGACY: u16 = 0x0008;
+const F_SET_OVERLAPS: u16 = 0x0010;
+const F_PASSTHROUGH: u16 = 0x0020;
+const F_NOTDEF_OUTLINE: u16 = 0x0040;
+const F_GLYPH_NAMES: u16 = 0x0080;
+const F_NO_PRUNE: u16 = 0x0100;
+const F_NO_LAYOUT_CLOSURE: u16 = 0x0200;
+const F_OPT_IUP: u16 = 0x0400;
+
+/// flags whose effect on the observations is modelled (the others are
+/// declared UNIMPLEMENTED in klippa and are or-ed in at random).
+const CORE_FLAGS: [u16; 4] = [F_NO_HINTING, F_RETAIN_GIDS, F_NOTDEF_OUTLINE, F_SET_OVERLAPS];
+const EXTRA_FLAGS: [u16; 7] = [
+    F_DESUBR,
+    F_NAME_LEGACY,
+    F_PASSTHROUGH,
+    F_GLYPH_NAMES,
+    F_NO_PRUNE,
+    F_NO_LAYOUT_CLOSURE,
+    F_OPT_IUP,
+];
+
+fn flag_names(f: u16) -> String {
+    let names = [
+        (F_NO_HINTING, "no-hinting"),
+        (F_RETAIN_GIDS, "retain-gids"),
+        (F_DESUBR, "desubroutinize"),
+        (F_NAME_LEGACY, "name-legacy"),
+        (F_SET_OVERLAPS, "set-overlaps"),
+        (F_PASSTHROUGH, "passthrough"),
+        (F_NOTDEF_OUTLINE, "notdef-outline"),
+        (F_GLYPH_NAMES, "glyph-names"),
+        (F_NO_PRUNE, "no-prune-unicode-ranges"),
+        (F_NO_LAYOUT_CLOSURE, "no-layout-closure"),
+        (F_OPT_IUP, "optimize-iup"),
+    ];
+    let v: Vec<&str> = names.iter().filter(|(b, _)| f & b != 0).map(|(_, n)| *n).collect();
+    if v.is_empty() {
+        "default".into()
+    } else {
+        v.join("+")
+    }
+}
+
+// ------------------------------------------------------------------ observations
+
+#[derive(Clone, Debug)]
+struct Setting {
+    ppem: Option<f32>,
+    coords: Vec<F2Dot14>,
+    is_default_loc: bool,
+    label: String,
+}
+
+impl Setting {
+    fn size(&self) -> Size {
+        match self.ppem {
+            Some(p) => Size::new(p),
+            None => Size::unscaled(),
+        }
+    }
+}
+
+/// What is seen of one glyph at one (size, location).
+#[derive(Clone, Debug, PartialEq)]
+struct SObs {
+    /// 0 = drawn, 1 = draw returned Err, 2 = glyph not in the collection
+    ostat: u8,
+    outline: u64,
+    ncmd: u32,
+    adv: Option<u32>,
+    lsb: Option<u32>,
+}
+
+struct DigestPen {
+    d: Digest,
+    n: u32,
+}
+
+impl OutlinePen for DigestPen {
+    fn move_to(&mut self, x: f32, y: f32) {
+        self.d.bytes(&[1]);
+        self.d.f32(x);
+        self.d.f32(y);
+        self.n += 1;
+    }
+    fn line_to(&mut self, x: f32, y: f32) {
+        self.d.bytes(&[2]);
+        self.d.f32(x);
+        self.d.f32(y);
+        self.n += 1;
+    }
+    fn quad_to(&mut self, cx0: f32, cy0: f32, x: f32, y: f32) {
+        self.d.bytes(&[3]);
+        self.d.f32(cx0);
+        self.d.f32(cy0);
+        self.d.f32(x);
+        self.d.f32(y);
+        self.n += 1;
+    }
+    fn curve_to(&mut self, cx0: f32, cy0: f32, cx1: f32, cy1: f32, x: f32, y: f32) {
+        self.d.bytes(&[4]);
+        self.d.f32(cx0);
+        self.d.f32(cy0);
+        self.d.f32(cx1);
+        self.d.f32(cy1);
+        self.d.f32(x);
+        self.d.f32(y);
+        self.n += 1;
+    }
+    fn close(&mut self) {
+        self.d.bytes(&[5]);
+        self.n += 1;
+    }
+}
+
+struct Observer<'a> {
+    outlines: OutlineGlyphCollection<'a>,
+    metrics: Vec<GlyphMetrics<'a>>,
+    settings: &'a [Setting],
+}
+
+impl<'a> Observer<'a> {
+    fn new(font: &FontRef<'a>, settings: &'a [Setting]) -> Self {
+        let metrics = settings
+            .iter()
+            .map(|s| GlyphMetrics::new(font, s.size(), LocationRef::new(&s.coords)))
+            .collect();
+        Observer {
+            outlines: font.outline_glyphs(),
+            metrics,
+            settings,
+        }
+    }
+
+    fn obs(&self, gid: u32) -> Vec<SObs> {
+        let g = GlyphId::new(gid);
+        let glyph = self.outlines.get(g);
+        self.settings
+            .iter()
+            .zip(self.metrics.iter())
+            .map(|(s, m)| {
+                let (ostat, outline, ncmd) = match &glyph {
+                    None => (2u8, 0u64, 0u32),
+                    Some(gl) => {
+                        let mut pen = DigestPen { d: Digest::new(), n: 0 };
+                        let r = gl.draw(DrawSettings::unhinted(s.size(), LocationRef::new(&s.coords)), &mut pen);
+                        match r {
+                            Ok(_) => (0, pen.d.finish(), pen.n),
+                            Err(e) => {
+                                let mut d = Digest::new();
+                                d.str(&format!("{e:?}"));
+                                (1, d.finish(), pen.n)
+                            }
+                        }
+                    }
+                };
+                SObs {
+                    ostat,
+                    outline,
+                    ncmd,
+                    adv: m.advance_width(g).map(f32::to_bits),
+                    lsb: m.left_side_bearing(g).map(f32::to_bits),
+                }
+            })
+            .collect()
+    }
+}
+
+fn make_settings(font: &FontRef, seed: u64, name: &str) -> Vec<Setting> {
+    let n_axes = font.axes().len();
+    let mut locs: Vec<(Vec<F2Dot14>, String)> = vec![(vec![], "default".into())];
+    if n_axes > 0 {
+        let lo = F2Dot14::from_f32(-1.0);
+        let hi = F2Dot14::from_f32(1.0);
+        let zero = F2Dot14::from_f32(0.0);
+        locs.push((vec![lo; n_axes], "all-min".into()));
+        locs.push((vec![hi; n_axes], "all-max".into()));
+        if n_axes > 1 {
+            for a in 0..n_axes.min(2) {
+                let mut v = vec![zero; n_axes];
+                v[a] = if a == 0 { hi } else { lo };
+                locs.push((v, format!("axis{a}-extreme")));
+            }
+        }
+        let mut rng = Rng::derive(seed, &format!("c17-loc:{name}"), 0);
+        for k in 0..2 {
+            let v: Vec<F2Dot14> = (0..n_axes).map(|_| F2Dot14::from_bits(rng.range(-16384, 16384) as i16)).collect();
+            locs.push((v, format!("random{k}")));
+        }
+    }
+    let mut out = vec![];
+    for (coords, ll) in &locs {
+        for ppem in [None, Some(16.0f32), Some(113.0f32)] {
+            out.push(Setting {
+                ppem,
+                coords: coords.clone(),
+                is_default_loc: coords.iter().all(|c| c.to_bits() == 0),
+                label: format!("{}@{}", ppem.map(|p| p.to_string()).unwrap_or("unscaled".into()), ll),
+            });
+        }
+    }
+    out
+}
+
+// ------------------------------------------------------------------ view of a font to subset from
+
+/// A font that is being subset (a corpus font, or — for idempotence — a
+/// subset of one), with what the oracle needs to know about it.
+struct View {
+    /// corpus font name (root font for idempotence views)
+    name: String,
+    path: String,
+    data: Arc<Vec<u8>>,
+    index: Option<u32>,
+    n_glyphs: u32,
+    /// (codepoint, gid) of the skrifa charmap, sorted, gid < n_glyphs
+    mappings: Vec<(u32, u32)>,
+    map: HashMap<u32, u32>,
+    /// component glyph ids of composite glyphs
+    comps: Vec<Vec<u32>>,
+    selectors: Vec<u32>,
+    has_hvar: bool,
+    has_gvar: bool,
+    kinds: Vec<&'static str>,
+    settings: Rc<Vec<Setting>>,
+    /// (platform, encoding, format) of the subtable skrifa's charmap uses
+    chosen_cmap: Option<(u16, u16, u16)>,
+    cache: RefCell<HashMap<u32, Rc<Vec<SObs>>>>,
+}
+
+fn open_font(data: &[u8], index: Option<u32>) -> Option<FontRef<'_>> {
+    match index {
+        None => FontRef::new(data).ok(),
+        Some(i) => FontRef::from_index(data, i).ok(),
+    }
+}
+
+fn platform_u16(p: PlatformId) -> u16 {
+    match p {
+        PlatformId::Unicode => 0,
+        PlatformId::Macintosh => 1,
+        PlatformId::ISO => 2,
+        PlatformId::Windows => 3,
+        PlatformId::Custom => 4,
+        _ => 0xFFFF,
+    }
+}
+
+/// Re-implementation of skrifa's subtable choice (charmap.rs MappingSelection)
+/// only used to *explain* a refutation (signature class), never to decide one.
+fn chosen_cmap_record(cmap: &Cmap) -> Option<(u16, u16, u16)> {
+    let mut best: Option<(u8, (u16, u16, u16))> = None;
+    for rec in cmap.encoding_records().iter().rev() {
+        let Ok(st) = rec.subtable(cmap.offset_data()) else { continue };
+        let fmt = st.format();
+        if fmt != 4 && fmt != 12 {
+            continue;
+        }
+        let p = platform_u16(rec.platform_id());
+        let e = rec.encoding_id();
+        let kind = match (p, e) {
+            (0, 5) => 0,
+            (3, 0) => 3,
+            (3, 10) | (0, 4) => 2,
+            (2, _) | (0, _) | (3, 1) => 1,
+            _ => 0,
+        };
+        if kind > best.map(|b| b.0).unwrap_or(0) {
+            best = Some((kind, (p, e, fmt)));
+        }
+    }
+    best.map(|b| b.1)
+}
+
+fn klippa_retains(p: u16, e: u16) -> bool {
+    matches!((p, e), (0, 3) | (0, 4) | (3, 1) | (3, 10))
+}
+
+impl View {
+    /// None if the font is not a glyf-flavoured font skrifa can open.
+    fn build(
+        name: &str,
+        path: &str,
+        data: Arc<Vec<u8>>,
+        index: Option<u32>,
+        settings: Option<Rc<Vec<Setting>>>,
+        seed: u64,
+    ) -> Result<View, String> {
+        let d = data.clone();
+        let font = open_font(&d, index).ok_or("not a font")?;
+        let glyf = font.glyf().map_err(|_| "no glyf")?;
+        let loca = font.loca(None).map_err(|_| "no loca")?;
+        let maxp = font.maxp().map_err(|_| "no maxp")?;
+        font.head().map_err(|_| "no head")?;
+        let n_glyphs = maxp.num_glyphs() as u32;
+        let n_all = (loca.len() as u32).max(n_glyphs);
+        let charmap = font.charmap();
+        let mut mappings: Vec<(u32, u32)> = vec![];
+        for (c, g) in charmap.mappings() {
+            let g = g.to_u32();
+            if g < n_glyphs && charmap.map(c).map(|x| x.to_u32()) == Some(g) {
+                mappings.push((c, g));
+            }
+        }
+        mappings.sort_unstable();
+        mappings.dedup_by_key(|m| m.0);
+        let map: HashMap<u32, u32> = mappings.iter().copied().collect();
+        let mut comps = vec![vec![]; n_all as usize];
+        for g in 0..n_all {
+            if let Ok(Some(Glyph::Composite(c))) = loca.get_glyf(GlyphId::new(g), &glyf) {
+                comps[g as usize] = c.components().map(|c| c.glyph.to_u32()).collect();
+            }
+        }
+        let mut selectors = vec![];
+        let mut chosen = None;
+        if let Ok(cmap) = font.cmap() {
+            chosen = chosen_cmap_record(&cmap);
+            for rec in cmap.encoding_records() {
+                if let Ok(CmapSubtable::Format14(c14)) = rec.subtable(cmap.offset_data()) {
+                    selectors.extend(c14.var_selector().iter().map(|s| s.var_selector().to_u32()));
+                }
+            }
+        }
+        let mut kinds = vec![];
+        if font.fvar().is_ok() {
+            kinds.push("variable");
+        } else {
+            kinds.push("static");
+        }
+        if font.gvar().is_ok() {
+            kinds.push("gvar");
+        }
+        if font.hvar().is_ok() {
+            kinds.push("HVAR");
+        }
+        if font.colr().is_ok() {
+            kinds.push("COLR");
+        }
+        if comps.iter().any(|c| !c.is_empty()) {
+            kinds.push("composites");
+        }
+        if !selectors.is_empty() {
+            kinds.push("cmap14");
+        }
+        let settings = match settings {
+            Some(s) => s,
+            None => Rc::new(make_settings(&font, seed, name)),
+        };
+        Ok(View {
+            name: name.to_string(),
+            path: path.to_string(),
+            index,
+            n_glyphs: n_all,
+            mappings,
+            map,
+            comps,
+            selectors,
+            has_hvar: font.hvar().is_ok(),
+            has_gvar: font.gvar().is_ok(),
+            kinds,
+            settings,
+            chosen_cmap: chosen,
+            cache: RefCell::new(HashMap::new()),
+            data,
+        })
+    }
+
+    fn obs(&self, observer: &Observer, gid: u32) -> Rc<Vec<SObs>> {
+        if let Some(o) = self.cache.borrow().get(&gid) {
+            return o.clone();
+        }
+        let o = Rc::new(observer.obs(gid));
+        self.cache.borrow_mut().insert(gid, o.clone());
+        o
+    }
+}
+
+// ------------------------------------------------------------------ requests
+
+#[derive(Clone, Debug, Default)]
+struct Req {
+    chars: Vec<u32>,
+    gids: Vec<u32>,
+    flags: u16,
+    /// generator shape, evidence only
+    shape: &'static str,
+}
+
+impl Req {
+    fn digest(&self, font_id: &str) -> u64 {
+        let mut d = Digest::new();
+        d.str(font_id);
+        for c in &self.chars {
+            d.u32(*c);
+        }
+        d.bytes(&[0xfe]);
+        for g in &self.gids {
+            d.u32(*g);
+        }
+        d.u32(self.flags as u32);
+        d.finish()
+    }
+    fn json(&self) -> Value {
+        let cap = |v: &Vec<u32>| -> Value {
+            if v.len() <= 64 {
+                json!(v)
+            } else {
+                json!({"len": v.len(), "first": &v[..32], "last": &v[v.len()-8..], "fnv": format!("{:016x}", {
+                    let mut d = Digest::new();
+                    for x in v { d.u32(*x); }
+                    d.finish()
+                })})
+            }
+        };
+        json!({"chars": cap(&self.chars), "gids": cap(&self.gids), "flags": self.flags, "flag_names": flag_names(self.flags), "shape": self.shape})
+    }
+    fn retain(&self) -> bool {
+        self.flags & F_RETAIN_GIDS != 0
+    }
+}
+
+fn make_plan(font: &FontRef, req: &Req) -> Plan {
+    let mut gids: IntSet<GlyphId> = IntSet::empty();
+    for g in &req.gids {
+        gids.insert(GlyphId::new(*g));
+    }
+    let mut unicodes: IntSet<u32> = IntSet::empty();
+    for c in &req.chars {
+        unicodes.insert(*c);
+    }
+    // defaults of the klippa CLI (klippa/src/main.rs)
+    let drop_tables: IntSet<Tag> = [
+        b"morx", b"mort", b"kerx", b"kern", b"JSTF", b"DSIG", b"EBDT", b"EBLC", b"EBSC", b"SVG ", b"PCLT", b"LTSH",
+        b"feat", b"Glat", b"Gloc", b"Silf", b"Sill",
+    ]
+    .iter()
+    .map(|t| Tag::new(*t))
+    .collect();
+    let mut name_ids: IntSet<NameId> = IntSet::empty();
+    name_ids.insert_range(NameId::from(0)..=NameId::from(6));
+    let mut name_languages: IntSet<u16> = IntSet::empty();
+    name_languages.insert(0x0409);
+    let mut layout_scripts: IntSet<Tag> = IntSet::empty();
+    layout_scripts.invert();
+    let mut layout_features: IntSet<Tag> = IntSet::empty();
+    layout_features.extend(DEFAULT_LAYOUT_FEATURES.iter().copied());
+    Plan::new(
+        &gids,
+        &unicodes,
+        font,
+        SubsetFlags::from(req.flags),
+        &drop_tables,
+        &layout_scripts,
+        &layout_features,
+        &name_ids,
+        &name_languages,
+    )
+}
+
+enum SubOut {
+    Ok(Vec<u8>),
+    Err(String),
+    Panic,
+}
+
+fn call_subset(ctx: &mut Ctx, view: &View, level: &str, req: &Req) -> SubOut {
+    let Some(font) = open_font(&view.data, view.index) else {
+        ctx.inconclusive(format!("cannot reopen view {}", view.name));
+        return SubOut::Err("harness".into());
+    };
+    let label = || format!("{}:{}:{}", level, view.name, req.json());
+    let r = ctx.run_case(&label, Some(&view.data), &|| {
+        let plan = make_plan(&font, req);
+        subset_font(&font, &plan).map_err(|e| format!("{e}"))
+    });
+    match r {
+        Ok(Ok(b)) => SubOut::Ok(b),
+        Ok(Err(e)) => SubOut::Err(e),
+        Err(p) => {
+            ctx.count("subset_panic", 1);
+            ctx.judge_panic(
+                &p,
+                "klippa::Plan::new + subset_font",
+                json!({"font": view.name, "path": view.path, "level": level, "request": req.json()}),
+                None,
+            );
+            SubOut::Panic
+        }
+    }
+}
+
+// ------------------------------------------------------------------ expectations from the plan semantics
+
+struct Expect {
+    /// retained characters (requested and mapped, or mapping to a requested glyph), sorted
+    chars: Vec<(u32, u32)>,
+    /// glyphs the property demands: requested ∪ glyphs of retained chars ∪ .notdef ∪ components
+    r_min: BTreeSet<u32>,
+    /// glyphs the plan retains according to its semantics (⊇ r_min)
+    r_full: BTreeSet<u32>,
+}
+
+fn composite_closure(view: &View, seed: &BTreeSet<u32>) -> BTreeSet<u32> {
+    let mut out = BTreeSet::new();
+    let mut stack: Vec<u32> = seed.iter().copied().collect();
+    while let Some(g) = stack.pop() {
+        if g >= view.n_glyphs || !out.insert(g) {
+            continue;
+        }
+        for c in &view.comps[g as usize] {
+            stack.push(*c);
+        }
+    }
+    out
+}
+
+fn expectations(view: &View, font: &FontRef, req: &Req) -> Expect {
+    let gidset: BTreeSet<u32> = req.gids.iter().copied().collect();
+    let charset: BTreeSet<u32> = req.chars.iter().copied().collect();
+    let mut chars = vec![];
+    if gidset.is_empty() {
+        for c in &charset {
+            if let Some(g) = view.map.get(c) {
+                chars.push((*c, *g));
+            }
+        }
+    } else {
+        for (c, g) in &view.mappings {
+            if charset.contains(c) || gidset.contains(g) {
+                chars.push((*c, *g));
+            }
+        }
+    }
+    let mut seed: BTreeSet<u32> = BTreeSet::new();
+    seed.insert(0);
+    for (_, g) in &chars {
+        seed.insert(*g);
+    }
+    for g in &gidset {
+        if *g < view.n_glyphs {
+            seed.insert(*g);
+        }
+    }
+    let r_min = composite_closure(view, &seed);
+
+    // the plan's closures that may add glyphs beyond the property's minimum
+    let mut gs: IntSet<GlyphId> = seed.iter().map(|g| GlyphId::new(*g)).collect();
+    if let Ok(cmap) = font.cmap() {
+        let mut unicodes: IntSet<u32> = chars.iter().map(|c| c.0).collect();
+        for s in &view.selectors {
+            if charset.contains(s) {
+                unicodes.insert(*s);
+            }
+        }
+        cmap.closure_glyphs(&unicodes, &mut gs);
+    }
+    let mut colred: IntSet<GlyphId> = IntSet::empty();
+    if let Ok(colr) = font.colr() {
+        colr.v0_closure_glyphs(&gs, &mut colred);
+        let mut a = IntSet::empty();
+        let mut b = IntSet::empty();
+        let mut c = IntSet::empty();
+        colr.v1_closure(&mut colred, &mut a, &mut b, &mut c);
+    } else {
+        colred = gs.clone();
+    }
+    let seed_full: BTreeSet<u32> = colred.iter().map(|g| g.to_u32()).filter(|g| *g < view.n_glyphs).collect();
+    let mut r_full = composite_closure(view, &seed_full);
+    for g in &r_min {
+        r_full.insert(*g);
+    }
+    Expect { chars, r_min, r_full }
+}
+
+// ------------------------------------------------------------------ defect-class explanation (cmap format 4)
+
+/// Is `c` served, in this format-4 subtable, by a segment with a non-zero
+/// idRangeOffset that is preceded by at least one other such segment? That
+/// is exactly the situation in which `serialize_rangeoffset_glyph_ids`
+/// (klippa/src/cmap.rs) computes a wrong idRangeOffset (DESIGN §5 #6).
+fn in_later_rangeoffset_segment(c4: &Cmap4, c: u32) -> bool {
+    if c > 0xFFFF {
+        return false;
+    }
+    let ends = c4.end_code();
+    let starts = c4.start_code();
+    let ros = c4.id_range_offsets();
+    let mut earlier = 0;
+    for i in 0..ends.len().min(starts.len()).min(ros.len()) {
+        let (s, e, ro) = (starts[i].get() as u32, ends[i].get() as u32, ros[i].get());
+        if s == 0xFFFF && e == 0xFFFF {
+            break;
+        }
+        if ro != 0 {
+            if s <= c && c <= e {
+                return earlier >= 1;
+            }
+            earlier += 1;
+        } else if s <= c && c <= e {
+            return false;
+        }
+    }
+    false
+}
+
+fn any_format4_later_rangeoffset(sub: &FontRef, c: u32) -> bool {
+    let Ok(cmap) = sub.cmap() else { return false };
+    for rec in cmap.encoding_records() {
+        if let Ok(CmapSubtable::Format4(c4)) = rec.subtable(cmap.offset_data()) {
+            if in_later_rangeoffset_segment(&c4, c) {
+                return true;
+            }
+        }
+    }
+    false
+}
+
+fn count_rangeoffset_segments(sub: &FontRef) -> usize {
+    let mut best = 0;
+    if let Ok(cmap) = sub.cmap() {
+        for rec in cmap.encoding_records() {
+            if let Ok(CmapSubtable::Format4(c4)) = rec.subtable(cmap.offset_data()) {
+                let n = c4.id_range_offsets().iter().filter(|r| r.get() != 0).count();
+                best = best.max(n);
+            }
+        }
+    }
+    best
+}
+
+// ------------------------------------------------------------------ the check of one (font, request)
+
+#[derive(Clone, Copy, PartialEq)]
+enum Kind {
+    Direct,
+    Everything,
+    Idem,
+}
+
+impl Kind {
+    fn s(&self) -> &'static str {
+        match self {
+            Kind::Direct => "direct",
+            Kind::Everything => "everything",
+            Kind::Idem => "idem",
+        }
+    }
+}
+
+struct CaseCtx<'a> {
+    view: &'a View,
+    req: &'a Req,
+    kind: Kind,
+    /// for Kind::Idem: the request that produced the view
+    root_req: Option<&'a Req>,
+}
+
+impl CaseCtx<'_> {
+    fn detail(&self, extra: Value) -> Value {
+        let mut d = json!({
+            "font": self.view.name,
+            "path": self.view.path,
+            "kind": self.kind.s(),
+            "request": self.req.json(),
+            "replay_request": {"chars": self.root_req.unwrap_or(self.req).chars.len(), "note": "full request is regenerated from seed/tier/shard; see 'request'"},
+        });
+        if let Some(r) = self.root_req {
+            d["root_request"] = r.json();
+        }
+        if let (Some(o), Some(e)) = (d.as_object_mut(), extra.as_object()) {
+            for (k, v) in e {
+                o.insert(k.clone(), v.clone());
+            }
+        }
+        d
+    }
+    fn mode(&self) -> &'static str {
+        if self.req.retain() {
+            "retain"
+        } else {
+            "renum"
+        }
+    }
+    fn sig(&self, what: &str) -> String {
+        format!("{}:{}:{}:{}", what, self.kind.s(), self.mode(), self.view.name)
+    }
+}
+
+/// fonts whose `Err` from subset_font is legitimate, with the table it is
+/// reported for and why (decided by reading klippa and the font).
+fn legitimate_error(view: &View, err: &str) -> Option<&'static str> {
+    let _ = (view, err);
+    None
+}
+
+/// Returns the subset bytes and old→new relation if the case could be fully
+/// evaluated (used by the idempotence step).
+fn check_case(ctx: &mut Ctx, cc: &CaseCtx) -> Option<(Vec<u8>, HashMap<u32, u32>)> {
+    let view = cc.view;
+    let req = cc.req;
+    ctx.eval();
+    ctx.count(&format!("cases:{}", cc.kind.s()), 1);
+    let out = match call_subset(ctx, view, cc.kind.s(), req) {
+        SubOut::Ok(b) => b,
+        SubOut::Panic => return None,
+        SubOut::Err(e) => {
+            ctx.count(&format!("subset_error:{}", e), 1);
+            ctx.label("subset_error_fonts", &format!("{} [{}]", view.name, e));
+            if let Some(why) = legitimate_error(view, &e) {
+                ctx.label("subset_error_legitimate", &format!("{}: {} ({})", view.name, e, why));
+                return None;
+            }
+            let is_cmap = e.contains("'cmap'");
+            let not_retained = view.chosen_cmap.map(|(p, en, f)| !klippa_retains(p, en) || (f == 12 && !matches!((p, en), (0, 4) | (3, 10)))).unwrap_or(false);
+            if is_cmap && not_retained {
+                let sig = format!("subset-error:cmap:no-retained-cmap-subtable:{}", view.name);
+                ctx.violation(&sig, cc.detail(json!({"error": e, "original_charmap_subtable(platform,encoding,format)": view.chosen_cmap.map(|c| json!([c.0, c.1, c.2])), "mapped_chars_in_original": view.mappings.len()})), None);
+            } else {
+                let tag = e.split('\'').nth(1).unwrap_or("?").to_string();
+                let sig = format!("subset-error:{}:{}:{}", tag.trim(), cc.kind.s(), view.name);
+                ctx.violation(&sig, cc.detail(json!({"error": e})), None);
+            }
+            return None;
+        }
+    };
+    ctx.count("subset_ok", 1);
+
+    let Some(orig) = open_font(&view.data, view.index) else { return None };
+    // (1) the subset reopens as a font
+    let sub = match FontRef::new(&out) {
+        Ok(f) => f,
+        Err(e) => {
+            ctx.violation(&cc.sig("reopen"), cc.detail(json!({"error": format!("{e:?}"), "subset_len": out.len()})), None);
+            return None;
+        }
+    };
+    let n_sub = match sub.maxp() {
+        Ok(m) => m.num_glyphs() as u32,
+        Err(e) => {
+            ctx.violation(&cc.sig("reopen-maxp"), cc.detail(json!({"error": format!("{e:?}")})), None);
+            return None;
+        }
+    };
+    if sub.head().is_err() || sub.glyf().is_err() || sub.loca(None).is_err() {
+        ctx.violation(&cc.sig("reopen-tables"), cc.detail(json!({"head": sub.head().is_ok(), "glyf": sub.glyf().is_ok(), "loca": sub.loca(None).is_ok()})), None);
+        return None;
+    }
+
+    // (2) glyph set and the renumbering relation
+    let ex = expectations(view, &orig, req);
+    let retain = req.retain();
+    let need = if retain {
+        ex.r_min.iter().next_back().map(|g| g + 1).unwrap_or(1)
+    } else {
+        ex.r_min.len() as u32
+    };
+    if n_sub < need {
+        ctx.violation(
+            &cc.sig("glyph-missing"),
+            cc.detail(json!({"subset_num_glyphs": n_sub, "needed_at_least": need, "r_min": ex.r_min.len()})),
+            None,
+        );
+        return None;
+    }
+    let expected_n = if retain {
+        ex.r_full.iter().next_back().map(|g| g + 1).unwrap_or(1)
+    } else {
+        ex.r_full.len() as u32
+    };
+    if ex.r_full.len() > ex.r_min.len() {
+        ctx.count("cases_with_closure_superset", 1);
+    }
+    if n_sub != expected_n {
+        // the relation cannot be recovered: nothing the property demands is
+        // known to be missing, so this is not a refutation.
+        ctx.count("relation_unrecoverable", 1);
+        ctx.inconclusive(format!(
+            "{}: subset has {} glyphs, plan semantics give {} (r_min {}), request {}",
+            view.name,
+            n_sub,
+            expected_n,
+            ex.r_min.len(),
+            req.json()
+        ));
+        return None;
+    }
+    if cc.kind == Kind::Everything && n_sub != view.n_glyphs {
+        ctx.violation(&cc.sig("everything-glyph-count"), cc.detail(json!({"subset_num_glyphs": n_sub, "original": view.n_glyphs})), None);
+    }
+    let mut rel: HashMap<u32, u32> = HashMap::with_capacity(ex.r_full.len());
+    for (i, g) in ex.r_full.iter().enumerate() {
+        rel.insert(*g, if retain { *g } else { i as u32 });
+    }
+
+    // (3) every kept glyph: same outline / advance / lsb at every size and location
+    let settings: &[Setting] = &view.settings;
+    let oobs = Observer::new(&orig, settings);
+    let sobs = Observer::new(&sub, settings);
+    let notdef_kept = req.flags & F_NOTDEF_OUTLINE != 0;
+    let mut compared = 0u64;
+    let mut bad_glyphs = 0;
+    let mut kept_nonempty = 0u64;
+    for (&g, &ng) in ex.r_full.iter().map(|g| (g, &rel[g])) {
+        let a = view.obs(&oobs, g);
+        let b = sobs.obs(ng);
+        let is_notdef_emptied = g == 0 && !notdef_kept;
+        for (i, (x, y)) in a.iter().zip(b.iter()).enumerate() {
+            let st = &settings[i];
+            let mut diff: Option<&'static str> = None;
+            if is_notdef_emptied {
+                // without NOTDEF_OUTLINE the outline (and with it gvar data,
+                // which also carries phantom-point metric deltas when there
+                // is no HVAR) may be dropped: only hmtx/HVAR metrics are promised
+                if st.is_default_loc || view.has_hvar || !view.has_gvar {
+                    if x.adv != y.adv {
+                        diff = Some("advance");
+                    } else if x.lsb != y.lsb {
+                        diff = Some("lsb");
+                    }
+                }
+            } else {
+                if x.ostat == 1 {
+                    ctx.count("orig_draw_error_skipped", 1);
+                } else if x.ostat != y.ostat || x.outline != y.outline || x.ncmd != y.ncmd {
+                    diff = Some("outline");
+                }
+                if diff.is_none() {
+                    if x.adv != y.adv {
+                        diff = Some("advance");
+                    } else if x.lsb != y.lsb {
+                        diff = Some("lsb");
+                    }
+                }
+                if i == 0 && x.ostat == 0 && x.ncmd > 0 {
+                    kept_nonempty += 1;
+                }
+            }
+            compared += 1;
+            if let Some(what) = diff {
+                bad_glyphs += 1;
+                if bad_glyphs <= 3 {
+                    let who = if g == 0 { "notdef" } else { "glyph" };
+                    ctx.violation(
+                        &cc.sig(&format!("glyph-differs:{}:{}", what, who)),
+                        cc.detail(json!({
+                            "old_gid": g, "new_gid": ng, "setting": st.label,
+                            "original": {"draw_status": x.ostat, "commands": x.ncmd, "outline_digest": format!("{:016x}", x.outline), "advance": x.adv.map(f32::from_bits), "lsb": x.lsb.map(f32::from_bits)},
+                            "subset": {"draw_status": y.ostat, "commands": y.ncmd, "outline_digest": format!("{:016x}", y.outline), "advance": y.adv.map(f32::from_bits), "lsb": y.lsb.map(f32::from_bits)},
+                            "subset_num_glyphs": n_sub,
+                        })),
+                        None,
+                    );
+                }
+                break;
+            }
+        }
+    }
+    ctx.count("glyph_setting_comparisons", compared);
+    ctx.count("kept_glyphs_compared", ex.r_full.len() as u64);
+
+    // (3b) components of kept composites are the renumbered components
+    if let (Ok(sl), Ok(sg)) = (sub.loca(None), sub.glyf()) {
+        let mut bad = 0;
+        for &g in ex.r_full.iter() {
+            let oc = &view.comps[g as usize];
+            if oc.is_empty() || (g == 0 && !notdef_kept) {
+                continue;
+            }
+            let want: Vec<Option<u32>> = oc.iter().map(|c| rel.get(c).copied()).collect();
+            let got: Vec<Option<u32>> = match sl.get_glyf(GlyphId::new(rel[&g]), &sg) {
+                Ok(Some(Glyph::Composite(c))) => c.components().map(|c| Some(c.glyph.to_u32())).collect(),
+                _ => vec![],
+            };
+            ctx.count("composites_checked", 1);
+            if want != got && bad < 2 {
+                bad += 1;
+                ctx.violation(
+                    &cc.sig("component-remap"),
+                    cc.detail(json!({"old_gid": g, "new_gid": rel[&g], "old_components": oc, "expected_new_components": want, "subset_components": got})),
+                    None,
+                );
+            }
+        }
+    }
+
+    // (4) characters
+    let scm = sub.charmap();
+    let mut bad_chars = 0;
+    let report_char = |ctx: &mut Ctx, c: u32, g: u32, got: Option<u32>, where_: &str, bad_chars: &mut u32| {
+        *bad_chars += 1;
+        if *bad_chars > 3 {
+            return;
+        }
+        let want = rel.get(&g).copied();
+        let what = if got.is_none() { "cmap-unmapped" } else { "cmap-wrong-glyph" };
+        let sig = if any_format4_later_rangeoffset(&sub, c) {
+            format!("cmap-wrong-glyph:format4-multi-rangeoffset:{}", view.name)
+        } else if view.chosen_cmap.map(|(p, e, _)| !klippa_retains(p, e)).unwrap_or(false) {
+            format!("{}:no-retained-cmap-subtable:{}", what, view.name)
+        } else {
+            cc.sig(what)
+        };
+        ctx.violation(
+            &sig,
+            cc.detail(json!({
+                "char": format!("U+{:04X}", c), "original_gid": g, "expected_new_gid": want, "subset_maps_to": got, "observed_in": where_,
+                "subset_format4_rangeoffset_segments": count_rangeoffset_segments(&sub),
+                "original_charmap_subtable(platform,encoding,format)": view.chosen_cmap.map(|c| json!([c.0, c.1, c.2])),
+            })),
+            None,
+        );
+    };
+    for &(c, g) in &ex.chars {
+        let got = scm.map(c).map(|x| x.to_u32());
+        if got != rel.get(&g).copied() {
+            report_char(ctx, c, g, got, "skrifa charmap", &mut bad_chars);
+        }
+    }
+    ctx.count("char_mappings_checked", ex.chars.len() as u64);
+    let kept_chars: HashMap<u32, u32> = ex.chars.iter().copied().collect();
+    let mut extra = 0;
+    let mut n_sub_mappings = 0u64;
+    for (c, g2) in scm.mappings() {
+        n_sub_mappings += 1;
+        if !kept_chars.contains_key(&c) {
+            extra += 1;
+            if extra <= 2 {
+                ctx.violation(
+                    &cc.sig("cmap-extra-char"),
+                    cc.detail(json!({"char": format!("U+{:04X}", c), "subset_maps_to": g2.to_u32(), "mapped_in_original_to": view.map.get(&c), "requested_as_char": req.chars.contains(&c)})),
+                    None,
+                );
+            }
+        }
+    }
+    ctx.count("subset_mappings_enumerated", n_sub_mappings);
+    for c in &req.chars {
+        if !view.map.contains_key(c) && !view.selectors.contains(c) {
+            if let Some(g2) = scm.map(*c) {
+                ctx.violation(
+                    &cc.sig("cmap-maps-unmapped-char"),
+                    cc.detail(json!({"char": format!("U+{:04X}", c), "subset_maps_to": g2.to_u32()})),
+                    None,
+                );
+                break;
+            }
+        }
+    }
+    // (4b) every retained Unicode subtable, not only the one skrifa picks: where
+    // the original subtable of the same (platform, encoding) agrees with the
+    // original charmap, the subset subtable must give the renumbered glyph.
+    if let (Ok(ocmap), Ok(scmap)) = (orig.cmap(), sub.cmap()) {
+        let step = (ex.chars.len() / 1500).max(1);
+        for srec in scmap.encoding_records() {
+            let (p, e) = (platform_u16(srec.platform_id()), srec.encoding_id());
+            if !klippa_retains(p, e) {
+                continue;
+            }
+            let Ok(sst) = srec.subtable(scmap.offset_data()) else { continue };
+            let Some(orec) = ocmap.encoding_records().iter().find(|r| platform_u16(r.platform_id()) == p && r.encoding_id() == e) else { continue };
+            let Ok(ost) = orec.subtable(ocmap.offset_data()) else { continue };
+            let lookup = |st: &CmapSubtable, c: u32| -> Option<Option<u32>> {
+                match st {
+                    CmapSubtable::Format4(t) => Some(t.map_codepoint(c).map(|g| g.to_u32())),
+                    CmapSubtable::Format12(t) => Some(t.map_codepoint(c).map(|g| g.to_u32())),
+                    _ => None,
+                }
+            };
+            ctx.label("subset_cmap_subtables", &format!("({},{}) format {}", p, e, sst.format()));
+            for &(c, g) in ex.chars.iter().step_by(step) {
+                let (Some(o), Some(s)) = (lookup(&ost, c), lookup(&sst, c)) else { break };
+                if o != Some(g) {
+                    continue;
+                }
+                ctx.count("subtable_mappings_checked", 1);
+                if s != rel.get(&g).copied() {
+                    report_char(ctx, c, g, s, &format!("cmap subtable ({},{}) format {}", p, e, sst.format()), &mut bad_chars);
+                }
+            }
+        }
+    }
+    ctx.distinct("format4_rangeoffset_segment_counts", count_rangeoffset_segments(&sub) as u64);
+
+    // evidence
+    let nontrivial = ex.r_full.len() >= 2 && kept_nonempty >= 1;
+    if nontrivial {
+        ctx.nontrivial(fnv64(format!("{}:{}:{:016x}", cc.kind.s(), view.name, req.digest(&view.name)).as_bytes()));
+    }
+    ctx.distinct("flag_combinations", req.flags as u64);
+    ctx.label("request_shapes", req.shape);
+    ctx.label("flag_sets", &flag_names(req.flags));
+    if let Ok(h) = sub.head() {
+        ctx.label("subset_loca_format", if h.index_to_loc_format() == 0 { "short" } else { "long" });
+    }
+    if let Ok(hh) = sub.hhea() {
+        if (hh.number_of_h_metrics() as u32) < n_sub {
+            ctx.count("subsets_with_trimmed_long_metrics", 1);
+        }
+    }
+    if let Ok(gv) = sub.gvar() {
+        ctx.label("subset_gvar_offsets", if gv.flags().bits() & 1 != 0 { "long" } else { "short" });
+    }
+    ctx.sample_by_kind(
+        &format!("{}:{}", cc.kind.s(), req.shape),
+        json!({"font": view.name, "request": req.json(), "subset_len": out.len(), "subset_num_glyphs": n_sub, "kept": ex.r_full.len(), "required": ex.r_min.len(), "chars_kept": ex.chars.len()}),
+    );
+    if bad_glyphs == 0 && bad_chars == 0 {
+        ctx.count("cases_all_observations_equal", 1);
+    }
+    Some((out, rel))
+}
+
+/// idempotence: subset the subset with the same request (glyph ids taken
+/// through the renumbering) and check it like any other subset, the first
+/// subset playing the original's role.
+fn check_idempotence(ctx: &mut Ctx, view: &View, req: &Req, out: Vec<u8>, rel: &HashMap<u32, u32>, seed: u64) {
+    let v1 = match View::build(&view.name, &view.path, Arc::new(out), None, Some(view.settings.clone()), seed) {
+        Ok(v) => v,
+        Err(e) => {
+            ctx.inconclusive(format!("idempotence: cannot build view of subset of {}: {}", view.name, e));
+            return;
+        }
+    };
+    let mut gids: Vec<u32> = req.gids.iter().filter_map(|g| rel.get(g).copied()).collect();
+    gids.sort_unstable();
+    gids.dedup();
+    let req2 = Req {
+        chars: req.chars.clone(),
+        gids,
+        flags: req.flags,
+        shape: req.shape,
+    };
+    let cc = CaseCtx {
+        view: &v1,
+        req: &req2,
+        kind: Kind::Idem,
+        root_req: Some(req),
+    };
+    if let Some((out2, _)) = check_case(ctx, &cc) {
+        if let Ok(s2) = FontRef::new(&out2) {
+            let n2 = s2.maxp().map(|m| m.num_glyphs() as u32).unwrap_or(0);
+            if n2 != v1.n_glyphs {
+                ctx.count("idem_glyph_count_changed", 1);
+            } else {
+                ctx.count("idem_glyph_count_same", 1);
+            }
+            // the complete charmap must be unchanged
+            let m2: Vec<(u32, u32)> = {
+                let mut v: Vec<(u32, u32)> = s2.charmap().mappings().map(|(c, g)| (c, g.to_u32())).collect();
+                v.sort_unstable();
+                v
+            };
+            if n2 == v1.n_glyphs && m2 != v1.mappings {
+                ctx.violation(
+                    &cc.sig("idem-charmap-changed"),
+                    cc.detail(json!({"first_subset_mappings": v1.mappings.len(), "second_subset_mappings": m2.len()})),
+                    None,
+                );
+            }
+        }
+    }
+}
+
+// ------------------------------------------------------------------ workload
+
+fn pick_flags(rng: &mut Rng) -> u16 {
+    let mut f = 0u16;
+    for b in CORE_FLAGS {
+        if rng.bool() {
+            f |= b;
+        }
+    }
+    if rng.chance(1, 3) {
+        for b in EXTRA_FLAGS {
+            if rng.chance(1, 3) {
+                f |= b;
+            }
+        }
+    }
+    f
+}
+
+fn random_request(view: &View, rng: &mut Rng) -> Req {
+    let n = view.mappings.len();
+    let mut chars: Vec<u32> = vec![];
+    let shape: &'static str;
+    let pick_some = |rng: &mut Rng, k: usize| -> Vec<u32> {
+        let mut idx: Vec<usize> = (0..n).collect();
+        rng.shuffle(&mut idx);
+        idx.truncate(k.min(n));
+        idx.iter().map(|i| view.mappings[*i].0).collect()
+    };
+    match rng.below(12) {
+        0 => {
+            shape = "chars:1";
+            chars = pick_some(rng, 1);
+        }
+        1 => {
+            shape = "chars:2";
+            chars = pick_some(rng, 2);
+        }
+        2 | 3 => {
+            shape = "chars:few";
+            let k = 3 + rng.usize(10);
+            chars = pick_some(rng, k);
+        }
+        4 => {
+            shape = "chars:half";
+            chars = pick_some(rng, n / 2);
+        }
+        5 => {
+            shape = "chars:all-1";
+            chars = pick_some(rng, n.saturating_sub(1));
+        }
+        6 => {
+            shape = "chars:all";
+            chars = view.mappings.iter().map(|m| m.0).collect();
+        }
+        7 | 8 => {
+            // a window of consecutive mapped characters, thinned: produces
+            // cmap segments of every kind (delta runs, range-offset runs)
+            shape = "chars:window";
+            if n > 0 {
+                let w = 2 + rng.usize(60.min(n));
+                let s = rng.usize(n.saturating_sub(w) + 1);
+                let keep = 1 + rng.below(4);
+                for m in &view.mappings[s..(s + w).min(n)] {
+                    if rng.below(4) < keep {
+                        chars.push(m.0);
+                    }
+                }
+            }
+        }
+        9 => {
+            // two or three distant windows: several range-offset segments
+            shape = "chars:multi-window";
+            if n > 0 {
+                for _ in 0..2 + rng.usize(2) {
+                    let w = 2 + rng.usize(12.min(n));
+                    let s = rng.usize(n.saturating_sub(w) + 1);
+                    for m in &view.mappings[s..(s + w).min(n)] {
+                        if rng.below(5) != 0 {
+                            chars.push(m.0);
+                        }
+                    }
+                }
+            }
+        }
+        10 => {
+            shape = "chars:none";
+        }
+        _ => {
+            shape = "chars:few+unmapped";
+            let k = 1 + rng.usize(6);
+            chars = pick_some(rng, k);
+            for _ in 0..1 + rng.usize(3) {
+                chars.push(match rng.below(3) {
+                    0 => rng.below(0x300) as u32,
+                    1 => 0xE000 + rng.below(0x100) as u32,
+                    _ => 0x10000 + rng.below(0x20000) as u32,
+                });
+            }
+        }
+    }
+    // glyph id requests
+    let ng = view.n_glyphs.max(1);
+    let mut gids: Vec<u32> = vec![];
+    let gshape = rng.below(10);
+    match gshape {
+        0..=4 => {}
+        5 => gids.push(rng.below(ng as u64) as u32),
+        6 => {
+            for _ in 0..2 + rng.usize(8) {
+                gids.push(rng.below(ng as u64) as u32);
+            }
+        }
+        7 => {
+            let s = rng.below(ng as u64) as u32;
+            let l = 1 + rng.below(20) as u32;
+            for g in s..(s + l).min(ng) {
+                gids.push(g);
+            }
+        }
+        8 => {
+            // composites, which pull in components
+            let comps: Vec<u32> = (0..view.n_glyphs).filter(|g| !view.comps[*g as usize].is_empty()).collect();
+            if !comps.is_empty() {
+                for _ in 0..1 + rng.usize(4) {
+                    gids.push(*rng.pick(&comps));
+                }
+            } else {
+                gids.push(ng - 1);
+            }
+        }
+        _ => {
+            gids.push(ng - 1);
+            if rng.bool() {
+                // an id the font does not have: must be ignored
+                gids.push(ng + rng.below(100) as u32);
+            }
+        }
+    }
+    if chars.is_empty() && gids.is_empty() && rng.below(4) != 0 {
+        gids.push(rng.below(ng as u64) as u32);
+    }
+    chars.sort_unstable();
+    chars.dedup();
+    gids.sort_unstable();
+    gids.dedup();
+    Req {
+        chars,
+        gids,
+        flags: pick_flags(rng),
+        shape,
+    }
+}
+
+fn everything_request(view: &View, flags: u16) -> Req {
+    Req {
+        chars: view.mappings.iter().map(|m| m.0).collect(),
+        gids: (0..view.n_glyphs).collect(),
+        flags,
+        shape: "everything",
+    }
+}
+
+fn load_views(ctx: &mut Ctx) -> Vec<View> {
+    let mut fonts = vf_core::corpus_fonts();
+    fonts.extend(vf_core::klippa_fonts());
+    let mut seen = BTreeSet::new();
+    let mut views = vec![];
+    for f in fonts {
+        if !seen.insert(fnv64(&f.data)) {
+            ctx.count("fonts_duplicate_skipped", 1);
+            continue;
+        }
+        let index = if f.name.ends_with(".ttc") { Some(0) } else { None };
+        match View::build(&f.name, &f.path.to_string_lossy(), f.data.clone(), index, None, ctx.seed) {
+            Ok(v) => views.push(v),
+            Err(why) => {
+                ctx.count(&format!("fonts_skipped:{}", why), 1);
+            }
+        }
+    }
+    views.sort_by(|a, b| a.name.cmp(&b.name));
+    // names are used in signatures: they must be unique
+    let mut names = BTreeSet::new();
+    for v in views.iter_mut() {
+        if !names.insert(v.name.clone()) {
+            v.name = format!("{}#{:08x}", v.name, fnv64(&v.data) as u32);
+            names.insert(v.name.clone());
+        }
+    }
+    views
+}
+
+const EXHAUSTIVE_MAX_CHARS: usize = 13;
+
+pub fn run(ctx: &mut Ctx, args: &Args) {
+    ctx.policy = PanicPolicy::Any;
+    ctx.rule = "a (font, request, flags) case counts when klippa produced a subset whose retained set has at least two glyphs of which at least one (other than an emptied .notdef) draws a non-empty outline, and all of its kept glyphs, characters and components were compared with the original; digest = kind + font + requested chars + requested gids + flags".into();
+    ctx.assumptions = vec![
+        "observations are those of skrifa (charmap, unhinted draw, glyph_metrics); hinted output and layout tables are out of scope".into(),
+        "old→new glyph relation is recovered from the plan semantics (rank in the retained set, identity under retain-gids) and cross-checked against the subset's glyph count; a count mismatch that keeps all demanded glyphs is reported as inconclusive".into(),
+        "without NOTDEF_OUTLINE only .notdef's hmtx/HVAR metrics are asserted".into(),
+        "glyphs whose draw fails in the original font are not compared".into(),
+    ];
+    let inventory = args.extra.iter().any(|a| a == "--inventory");
+    let views = load_views(ctx);
+    let mut item = 0usize;
+    let thorough = ctx.tier.is_thorough();
+    let mut all_exhaustive = true;
+    for view in &views {
+        let k = view.mappings.len();
+        ctx.label("fonts", &format!("{} [{} glyphs, {} chars, {} settings, {}]", view.name, view.n_glyphs, k, view.settings.len(), view.kinds.join("+")));
+        for kd in &view.kinds {
+            ctx.label("font_kinds", kd);
+        }
+        if inventory {
+            eprintln!("{:50} glyphs {:6} chars {:6} settings {:3} {:?} cmap {:?}", view.name, view.n_glyphs, k, view.settings.len(), view.kinds, view.chosen_cmap);
+            continue;
+        }
+        let mut rng_font = Rng::derive(ctx.seed, &format!("c17-req:{}", view.name), 0);
+        let mut cases: Vec<(Req, bool)> = vec![];
+        // subset-to-everything under several flag sets
+        let ev_flags: &[u16] = if thorough {
+            &[0, F_RETAIN_GIDS, F_NOTDEF_OUTLINE, F_NOTDEF_OUTLINE | F_RETAIN_GIDS | F_NO_HINTING, F_NO_HINTING | F_SET_OVERLAPS]
+        } else {
+            &[F_NOTDEF_OUTLINE, F_RETAIN_GIDS]
+        };
+        for f in ev_flags {
+            cases.push((everything_request(view, *f), true));
+        }
+        let big = view.n_glyphs > 2000;
+        if k <= EXHAUSTIVE_MAX_CHARS {
+            // exhaustive over all subsets of the mapped characters
+            let flagsets: Vec<u16> = if thorough {
+                vec![0, F_RETAIN_GIDS, F_NOTDEF_OUTLINE | F_NO_HINTING, F_RETAIN_GIDS | F_NOTDEF_OUTLINE | F_SET_OVERLAPS]
+            } else {
+                vec![0, F_RETAIN_GIDS]
+            };
+            for mask in 0u32..(1u32 << k) {
+                let chars: Vec<u32> = (0..k).filter(|i| mask >> i & 1 == 1).map(|i| view.mappings[i].0).collect();
+                for f in &flagsets {
+                    let idem = thorough || (mask.wrapping_mul(2654435761) >> 16) % 4 == 0;
+                    cases.push((Req { chars: chars.clone(), gids: vec![], flags: *f, shape: "exhaustive-chars" }, idem));
+                }
+            }
+            ctx.count("fonts_exhaustive", 1);
+            ctx.count("exhaustive_char_subsets", 1u64 << k);
+        } else {
+            all_exhaustive = false;
+        }
+        let n_random = if k <= EXHAUSTIVE_MAX_CHARS {
+            ctx.tier.pick(40, 300)
+        } else if big {
+            ctx.tier.pick(48, 400)
+        } else {
+            ctx.tier.pick(160, 1600)
+        };
+        for _ in 0..n_random {
+            let r = random_request(view, &mut rng_font);
+            let idem = if big { rng_font.chance(1, 3) } else { true };
+            cases.push((r, idem));
+        }
+        for (req, idem) in &cases {
+            let mine = ctx.mine(item);
+            item += 1;
+            if !mine {
+                continue;
+            }
+            run_one(ctx, view, req, *idem);
+        }
+        // drop the observation cache of this font
+        view.cache.borrow_mut().clear();
+    }
+    ctx.exhaustive = Some(false);
+    ctx.extra.insert(
+        "exhaustive_part".into(),
+        json!(format!("all 2^k character subsets of every font with k <= {} mapped characters are enumerated (all fonts exhaustive: {})", EXHAUSTIVE_MAX_CHARS, all_exhaustive)),
+    );
+}
+
+fn run_one(ctx: &mut Ctx, view: &View, req: &Req, idem: bool) {
+    let seed = ctx.seed;
+    let r = vf_core::guard(std::panic::AssertUnwindSafe(|| {
+        let cc = CaseCtx {
+            view,
+            req,
+            kind: if req.shape == "everything" { Kind::Everything } else { Kind::Direct },
+            root_req: None,
+        };
+        if let Some((out, rel)) = check_case(ctx, &cc) {
+            if idem {
+                check_idempotence(ctx, view, req, out, &rel, seed);
+            }
+        }
+    }));
+    if let Err(p) = r {
+        // a panic outside subset_font: skrifa/read-fonts observing the subset, or the harness
+        ctx.judge_panic(
+            &p,
+            "observing the subset through skrifa/read-fonts",
+            json!({"font": view.name, "path": view.path, "request": req.json()}),
+            None,
+        );
+    }
+}
+
+// ------------------------------------------------------------------ replay
+
+/// Re-run one recorded case: needs `detail.path` and a request with complete
+/// (non-abbreviated) `chars` / `gids` arrays.
+fn replay(ctx: &mut Ctx, _args: &Args, rec: &Value, _bytes: Option<&[u8]>) {
+    ctx.policy = PanicPolicy::Any;
+    let d = if rec["detail"]["case"].is_object() { &rec["detail"]["case"] } else { &rec["detail"] };
+    let path = d["path"].as_str().unwrap_or("");
+    let r = if d["root_request"].is_object() { &d["root_request"] } else { &d["request"] };
+    let arr = |v: &Value| -> Option<Vec<u32>> { v.as_array().map(|a| a.iter().filter_map(|x| x.as_u64().map(|x| x as u32)).collect()) };
+    let (Some(chars), Some(gids)) = (arr(&r["chars"]), arr(&r["gids"])) else {
+        eprintln!("vf-c17: the recorded request is abbreviated; re-run the workload with the recorded seed/tier/shard instead");
+        ctx.inconclusive("replay: abbreviated request");
+        return;
+    };
+    let Ok(data) = std::fs::read(path) else {
+        ctx.inconclusive(format!("replay: cannot read {path}"));
+        return;
+    };
+    let name = std::path::Path::new(path).file_name().map(|s| s.to_string_lossy().to_string()).unwrap_or_default();
+    let index = if name.ends_with(".ttc") { Some(0) } else { None };
+    match View::build(&name, path, Arc::new(data), index, None, ctx.seed) {
+        Ok(view) => {
+            let req = Req {
+                chars,
+                gids,
+                flags: r["flags"].as_u64().unwrap_or(0) as u16,
+                shape: if d["kind"] == "everything" { "everything" } else { "replay" },
+            };
+            run_one(ctx, &view, &req, true);
+        }
+        Err(e) => ctx.inconclusive(format!("replay: {e}")),
+    }
 }
